@@ -99,6 +99,7 @@ type Context struct {
 	FastlyError                         *value.String
 	ClientIdentity                      *value.String
 	ClientGeoIpOverride                 *value.String
+	GeoipUseXForwardedFor               *value.Boolean
 	ClientSocketCongestionAlgorithm     *value.String
 	ClientSocketCwnd                    *value.Integer
 	ClientSocketPace                    *value.Integer
@@ -223,6 +224,7 @@ func New(options ...Option) *Context {
 		StaleContents:                   &value.String{},
 		FastlyError:                     &value.String{},
 		ClientGeoIpOverride:             &value.String{},
+		GeoipUseXForwardedFor:           &value.Boolean{},
 		ClientSocketCongestionAlgorithm: &value.String{Value: "cubic"},
 		ClientSocketCwnd:                &value.Integer{Value: 60},
 		ClientSocketPace:                &value.Integer{},
